@@ -86,14 +86,49 @@ def run(ctx: Ctx) -> None:
     ply = repo.mod("_ply.lex")
     cl = ply.func("Lexer.clone")
     txt = norm(cl)
-    # inside `if object:` both tables are replaced by fresh containers
+    # inside `if object:` both tables are replaced by fresh containers whose function entries are re-bound to the new object
     objif = [s for s in cl.body if isinstance(s, ast.If) and norm(s.test) == "object"]
-    ok = bool(objif)
+    ok = bool(objif) and "copy.copy(self)" in txt
+    why_clone = []
     if ok:
-        body_txt = " ; ".join(norm(s) for s in objif[0].body)
-        ok = "c.lexstatere = newtab" in body_txt and "newtab = {}" in body_txt and "c.lexstateerrorf = {}" in body_txt and "getattr(object," in body_txt and "copy.copy(self)" in txt
+        body = objif[0].body
+        nodes_ = [x for b in body for x in ast.walk(b)]
+
+        def fresh(v: ast.AST, depth: int = 0) -> bool:
+            if isinstance(v, (ast.Dict, ast.DictComp, ast.List, ast.ListComp)):
+                return True
+            if isinstance(v, ast.Call) and isinstance(v.func, ast.Name) and v.func.id in ("dict", "list") and not v.args:
+                return True
+            if isinstance(v, ast.Name) and depth < 3:
+                defs = [x.value for x in nodes_ if isinstance(x, ast.Assign) and any(isinstance(t, ast.Name) and t.id == v.id for t in x.targets)]
+                return bool(defs) and all(fresh(d, depth + 1) for d in defs)
+            return False
+
+        def rebound(v: ast.AST) -> bool:
+            return isinstance(v, ast.Call) and isinstance(v.func, ast.Name) and v.func.id == "getattr" and len(v.args) == 2 and norm(v.args[0]) == "object" and norm(v.args[1]).endswith(".__name__")
+
+        for table in ("lexstatere", "lexstateerrorf"):
+            stores = [x for x in nodes_ if isinstance(x, ast.Assign) and any(attr_chain(t) == ("c", table) for t in x.targets)]
+            if len(stores) != 1 or not fresh(stores[0].value):
+                ok = False
+                why_clone.append(f"c.{table} is not replaced by a fresh container")
+        # error functions: every value put into the new table is getattr(object, <old>.__name__)
+        evals = []
+        for x in nodes_:
+            if isinstance(x, ast.Assign) and any(isinstance(t, ast.Subscript) and attr_chain(t.value) == ("c", "lexstateerrorf") for t in x.targets):
+                evals.append(x.value)
+            if isinstance(x, ast.Assign) and any(attr_chain(t) == ("c", "lexstateerrorf") for t in x.targets) and isinstance(x.value, ast.DictComp):
+                evals.append(x.value.value)
+        if not evals or not all(rebound(v) for v in evals):
+            ok = False
+            why_clone.append(f"an error function is copied into the clone without being re-bound ({[short(v, 30) for v in evals if not rebound(v)]}): illegal characters are reported by the first lexer object ever created")
+        # rule functions: a (function, type) pair is rebuilt with the re-bound function wherever one is copied
+        pairs = [x for x in ast.walk(cl) if isinstance(x, ast.Tuple) and len(x.elts) == 2 and norm(x.elts[1]).endswith("[1]")]
+        if not pairs or not all(rebound(p.elts[0]) for p in pairs):
+            ok = False
+            why_clone.append("a rule function is copied into the clone without being re-bound to the new object")
     ctx.ob("R15.2", "_ply.lex:Lexer.clone|object-bound clone gets its own rule and error tables", ok,
-           msg="Lexer.clone no longer replaces lexstatere / lexstateerrorf by fresh containers re-bound to the new object", node=cl, mod=ply)
+           msg="Lexer.clone: " + ("; ".join(why_clone) or "no `if object:` re-binding block / no shallow copy of the lexer"), node=cl, mod=ply)
     # the package never calls table-mutating Lexer methods
     for m in repo.modules.values():
         if m.name.startswith("_ply"):
